@@ -177,6 +177,20 @@ func (e *Exec) evalWitnesses(env *Env, fc *FuncContract) {
 }
 
 func (e *Exec) checkPosts(fr *Frame, st *State, ret *ssa.Return, vals []Val) {
+	if len(e.fc.Epilogue) > 0 {
+		// ghost code: assignments to ghost variables at return
+		st = st.clone()
+		genv := e.funcEnv(fr, st)
+		e.bindResults(genv, e.fc, vals)
+		for _, g := range e.fc.Epilogue {
+			v := e.evalExpr(genv, g.Expr)
+			cur, ok := st.ghost[g.Name]
+			if !ok {
+				fatalf("%s:%d: epilogue assigns an undeclared ghost variable %s", g.File, g.Line, g.Name)
+			}
+			st.ghost[g.Name] = castTo(v, cur.K, cur.T)
+		}
+	}
 	env := e.funcEnv(fr, st)
 	e.bindResults(env, e.fc, vals)
 	e.evalWitnesses(env, e.fc)
@@ -269,6 +283,9 @@ func (e *Exec) checkModifies(fr *Frame, st *State, ret *ssa.Return, suffix strin
 		}
 		dot := strings.LastIndex(m, ".")
 		if dot < 0 {
+			for _, n := range e.P.modArrays(e.fc, m) {
+				allowedAll[n] = true
+			}
 			continue
 		}
 		baseSrc, fname := m[:dot], m[dot+1:]
@@ -375,6 +392,11 @@ func (e *Exec) execCall(fr *Frame, st *State, in ssa.CallInstruction, c *ssa.Cal
 					}
 				}
 				cenv.vars["ret"] = v
+				if v.K == KTuple {
+					for ti, tv := range v.F {
+						cenv.vars[fmt.Sprintf("ret%d", ti)] = tv
+					}
+				}
 				for _, lm := range sec.After {
 					e.instLemma(cenv, lm, st)
 				}
@@ -648,7 +670,8 @@ func (e *Exec) callModular(fr *Frame, st *State, in ssa.Instruction, fc *FuncCon
 			insts = append(insts, def)
 		}
 	}
-	if len(fc.Forall) == 0 {
+	if len(insts) == 0 {
+		// no instantiation: clauses that do not mention the quantified variables still hold
 		insts = []map[string]Val{{}}
 	}
 	for _, m := range insts {
@@ -664,7 +687,7 @@ func (e *Exec) callModular(fr *Frame, st *State, in ssa.Instruction, fc *FuncCon
 		ienv.old = oenv
 		ienv.soft, oenv.soft = true, true
 		e.softly(func() { e.evalWitnesses(ienv, fc) })
-		for _, c := range fc.Ensures {
+		for _, c := range append(append([]Clause{}, fc.Ensures...), fc.Assumes...) {
 			if !closedUnder(c.Expr, ienv) {
 				continue
 			}
